@@ -98,6 +98,7 @@ func (fw *flateWriter) Reset(wr io.Writer) {
 	*fw = flateWriter{zw: fw.zw}
 	fw.cw = countWriter{W: wr}
 	fw.zw.Reset(&fw.cw)
+	verifTrace("zreset", 0, 0, nil)
 }
 
 func (fw *flateWriter) Write(buf []byte) (int, error) {
@@ -105,6 +106,7 @@ func (fw *flateWriter) Write(buf []byte) (int, error) {
 	n, err := fw.zw.Write(buf)
 	fw.OutputOffset += fw.cw.N - offset
 	fw.InputOffset += int64(n)
+	verifTrace("zwrite", int64(n), fw.cw.N-offset, err)
 	return n, errWrap(err)
 }
 
@@ -112,5 +114,6 @@ func (fw *flateWriter) Flush() error {
 	offset := fw.cw.N
 	err := fw.zw.Flush()
 	fw.OutputOffset += fw.cw.N - offset
+	verifTrace("zflush", 0, fw.cw.N-offset, err)
 	return errWrap(err)
 }
